@@ -255,6 +255,21 @@ class VirtualMP:
         self._s.trace.append(("cpu_count", self._s.cfg["cpu_count"]))
         return self._s.cfg["cpu_count"]
 
+    def parent_process(self):
+        # inside a worker body (while its behaviour is recorded) there is a parent; in the parent there is none
+        return object() if self._s.recording is not None else None
+
+    def current_process(self):
+        class _P:
+            name = "MainProcess" if self._s.recording is None else "VProcess"
+            pid = os.getpid()
+            daemon = False
+
+        return _P()
+
+    def active_children(self):
+        return [w for w in self._s.workers if w.started and not w.done]
+
     def __getattr__(self, name):
         raise ModelIncomplete(f"environment model incomplete: multiprocessing.{name}")
 
